@@ -296,7 +296,8 @@ def run(tier, seed):
         "rule": "single-path trees (nestings of Bin/SparselyBin/CentrallyBin/IrregularlyBin/Categorize/Select over every "
                 "leaf, depth<=%d): every stream of 1..n records over the tree's alphabet x every quantity-bearing node "
                 "as the failing one x {quantity raises, quantity returns a wrong type} x every subset of stream "
-                "positions (by increasing size); stream processed with try/except-continue; distinct = (tree, node, "
+                "positions (by increasing size); for Categorize nodes also a wrong-typed value that looks like a category booked "
+                "by an earlier healthy record (1.5 after '1.5'); stream processed with try/except-continue; distinct = (tree, node, "
                 "mode, stream, failing subset) with >=1 fault" % (2 if tier == "quick" else 3),
         "exhaustive": True,
         "bounds": {"trees": len(ts), "n": "3 (quick, depth 3) / 4"},
